@@ -47,14 +47,15 @@ def run(res, a):
     import props.C13 as c13
     idx = c13.option_index()
     # option settings that change which OS calls are made
-    settings = [[], [(idx["arena_eager_commit"], 0)], [(idx["disallow_arena_alloc"], 1)], [(idx["purge_delay"], 0)],
-                [(idx["eager_commit"], 0), (idx["arena_eager_commit"], 0)], [(idx["arena_reserve"], 65536)]]
-    profiles = [("span", 150), ("huge", 30), ("heaps", 150), ("realloc", 150), ("fillfree", 200), ("aligned", 150)]
+    settings = [[], [(idx["arena_eager_commit"], 0)], [(idx["eager_commit"], 0), (idx["arena_eager_commit"], 0)],
+                [(idx["eager_commit"], 0), (idx["disallow_arena_alloc"], 1)], [(idx["disallow_arena_alloc"], 1)], [(idx["purge_delay"], 0)],
+                [(idx["arena_reserve"], 65536)]]
+    profiles = [("span", 150), ("huge", 30), ("hugechurn", 40), ("heaps", 120), ("realloc", 150), ("fillfree", 200), ("aligned", 150)]
     tdir = os.path.join(vlib.BUILD, "traces", "C07"); os.makedirs(tdir, exist_ok=True)
     jobs = []; stats = collections.Counter()
     rng = random.Random(a.seed)
     nwork = 0
-    for si, opts in enumerate(settings if big else settings[:4]):
+    for si, opts in enumerate(settings if big else settings[:5]):
         for profile, nops in (profiles if big else profiles[:4]):
             head, body, tail = workload(profile, a.seed * 50 + si, nops, opts)
             # reference run: how many OS calls does the window make without failures?
